@@ -13,8 +13,23 @@ import Flounder.Model.Go
 import Flounder.Model.MoveGen
 import Flounder.Spec.Chess
 import Flounder.Spec.Geometry
+import Flounder.Spec.Minimax
+import Flounder.Model.Engine
 
 open Flounder Driver
+
+/-- deterministic "random" keys for the model when it runs without the engine's real draw (splitmix64). -/
+def defaultKeysFrom (seed : UInt64) : Array UInt64 := Id.run do
+  let mut a : Array UInt64 := #[]
+  let mut x : UInt64 := seed
+  for _ in [0:837] do
+    x := x + 0x9E3779B97F4A7C15
+    let mut z := x
+    z := (z ^^^ (z >>> 30)) * 0xBF58476D1CE4E5B9
+    z := (z ^^^ (z >>> 27)) * 0x94D049BB133111EB
+    a := a.push (z ^^^ (z >>> 31))
+  return a
+def defaultKeys : Array UInt64 := defaultKeysFrom 12345
 
 structure St where
   mg : MoveGenerator
@@ -23,6 +38,13 @@ structure St where
   evaluator : Evaluator := {}
   zkeys : Array UInt64 := Array.replicate 837 0
   zgood : Bool := false
+  -- search / engine
+  skeys : Array UInt64 := defaultKeys           -- keys of the in-process searcher under test
+  search : SearchState := {}
+  eng : Engine := {}
+  engKeys : Array (Array UInt64) := #[defaultKeys]   -- key table per `Searcher::new()` draw of the engine
+  specHist : List String := []
+  vmemo : Std.HashMap String (Option Int) := {}        -- memo of Spec.V per (position, depth)                  -- spec-side game history of the last position command (position texts, no counters)
 
 def both (m s : String) : String := s!"M:{m}\tS:{s}"
 def modelOnly (m : String) : String := s!"M:{m}"
@@ -80,6 +102,44 @@ def posText (p : Spec.Pos) (half full : Nat) : String :=
   let ep := match p.ep with | some s => toString s | none => "-"
   let side := match p.turn with | .white => "w" | .black => "b"
   s!"{pc .pawn},{pc .knight},{pc .bishop},{pc .rook},{pc .queen},{pc .king},{bbOf (fun m => m.1 == .white)},{bbOf (fun m => m.1 == .black)},{side},{mask},{ep},{half},{full}"
+
+def parseLimit (s : String) : Option Limit :=
+  if s == "none" then some .none
+  else match s.splitOn ":" with
+    | ["nodes", n] => n.toNat?.map Limit.nodes
+    | ["polls", n] => n.toNat?.map Limit.polls
+    | _ => none
+
+/-- order-independent digest of a transposition table: entry count and a 64-bit checksum. -/
+def ttDigest (t : TT) : String :=
+  let mvCode (m : Option Move) : UInt64 := match m with
+    | none => 0
+    | some m => (m.src * 64 + m.dst + 4096 * m.piece.index + 32768 * (match m.kind with
+        | .quiet => 0 | .capture => 1 | .enPassant => 2 | .castle => 3 | .promotion => 4) + 1).toUInt64
+  let bCode (b : Bounds) : UInt64 := match b with | .exact => 1 | .lower => 2 | .upper => 3
+  let sum := t.table.fold (fun (acc : UInt64) k e =>
+    acc + (k * 31 + e.hashKey * 17 + (Int.toNat (e.eval + 4294967296)).toUInt64 * 1000003 + mvCode e.bestMove * 7919 +
+           e.depth.toUInt64 * 104729 + bCode e.bounds * 1299709)) 0
+  s!"{t.table.size} {sum.toNat}"
+
+def posKey (b : Board) : String :=
+  boardText { b with halfmove := 0, fullmove := 0 }
+
+def scoreClass (v : Int) : Int := Spec.clampClass v
+
+def linesText (ls : List (List Char)) : String := "|".intercalate (ls.map String.ofList)
+
+def outcomeText : Outcome → String
+  | .running => "running" | .exited n => s!"exit{n}" | .panicked => "panic" | .outOfFuel => "model-out-of-fuel"
+
+/-- memoised reference minimax value (plain minimax is exponential; the same roots are judged many times). -/
+def specV (st : St) (G : Game Board) (d : Nat) (b : Board) : St × Option Int :=
+  let key := s!"{d}:{posKey b}"
+  match st.vmemo[key]? with
+  | some v => (st, v)
+  | none =>
+    let v := Spec.V G 2000 d b
+    ({ st with vmemo := st.vmemo.insert key v }, v)
 
 def step (st : St) (line : String) : St × String :=
   let toks := (line.trimAscii.toString.splitOn " ").filter (· ≠ "")
@@ -208,6 +268,188 @@ def step (st : St) (line : String) : St × String :=
     | none => (st, modelOnly "bad-op")
   | ["zob.same", a, b] => zobPair st a b
   | ["zob.diff", a, b] => zobPair st a b
+  -- ---------------------------------------------------------------- search (C05 C06 C07 C08 C03 C13)
+  | "s.new" :: ks =>
+    match ks.mapM Driver.parseU64 with
+    | some l => if l.length = 837 then ({ st with skeys := l.toArray, search := {} }, both "ok" "?") else (st, modelOnly "bad-op")
+    | none => (st, modelOnly "bad-op")
+  | ["s.go", b, d, lim] =>
+    match parseBoard b, d.toNat?, parseLimit lim with
+    | some b, some d, some lim =>
+      let G := chessGame st.mg (zkeysOf st.skeys)
+      match findBestMove G 100000 b d lim { st.search with deeperHits := 0, sameDepthHits := 0 } with
+      | (some (score, mv), s) =>
+        ({ st with search := s },
+         both s!"{score} {optMvText mv} nodes={s.nodes} polls={s.polls} deeper={s.deeperHits} same={s.sameDepthHits} afterstop={s.nodesAfterStop} rep={s.rep.length} tt={ttDigest s.tt}" "?")
+      | (none, s) => ({ st with search := s }, both "?" "?")
+    | _, _, _ => (st, modelOnly "bad-op")
+  | ["s.value", b, d, implMv] =>   -- fresh searcher, completed search: value and move against plain minimax
+    match parseBoard b, d.toNat?, parseOptMv implMv with
+    | some b, some d, some implMv =>
+      let G := chessGame st.mg (zkeysOf st.skeys)
+      let m := match findBestMove G 100000 b d .none {} with
+        | (some (score, mv), s) => s!"{scoreClass score} {if mv = implMv then "same-move" else "other-move:" ++ optMvText mv} deeper={s.deeperHits}"
+        | (none, _) => "?"
+      let sp := match Spec.V G 2000 d b with
+        | some v =>
+          let attains := match implMv with
+            | some mv => (G.moves b).contains mv &&
+                (match Spec.V G 2000 (d - 1) (G.play b mv) with
+                 | some c => scoreClass (-c) == scoreClass v
+                 | none => false)
+            | none => (G.moves b).isEmpty
+          s!"{scoreClass v} {if attains then "same-move" else "move-does-not-attain-value"} deeper=0"
+        | none => "?"
+      (st, both m sp)
+    | _, _, _ => (st, modelOnly "bad-op")
+  | "s.judge" :: b :: what :: args =>
+    match parseBoard b with
+    | some b =>
+      let G := chessGame st.mg (zkeysOf st.skeys)
+      let p := Spec.abs b
+      let legalMs := Spec.legalMoves p
+      let mates (m : Move) : Bool := Spec.isMate (Spec.play p m)
+      let allowsMate1 (m : Move) : Bool :=
+        let q := Spec.play p m
+        (Spec.legalMoves q).any fun r => Spec.isMate (Spec.play q r)
+      let verdict : String := match what, args with
+        | "value", [_, _, _] => "handled-below"
+        | "legal", [mv] =>
+          (match parseOptMv mv with
+           | some (some m) => if legalMs.contains m then "ok" else "ILLEGAL-BESTMOVE"
+           | some none => if legalMs.isEmpty then "ok" else "NO-MOVE-BUT-LEGAL-MOVES-EXIST"
+           | none => "bad-op")
+        | "mate1", [mv] =>
+          (match parseOptMv mv with
+           | some (some m) => if legalMs.any mates then (if mates m then "ok" else "MATE-IN-ONE-NOT-PLAYED") else "ok"
+           | some none => if legalMs.any mates then "MATE-IN-ONE-NOT-PLAYED" else "ok"
+           | none => "bad-op")
+        | "safe", [mv] =>
+          (match parseOptMv mv with
+           | some (some m) =>
+             if legalMs.any (fun x => !allowsMate1 x) then (if allowsMate1 m then "ALLOWS-AVOIDABLE-MATE-IN-ONE" else "ok") else "ok"
+           | some none => "ok"
+           | none => "bad-op")
+        | _, _ => "bad-op"
+      if what == "value" then
+        match args with
+        | [d, score, mv] =>
+          (match d.toNat?, score.toInt?, parseOptMv mv with
+           | some d, some score, some mv =>
+             let (st, v?) := specV st G d b
+             (match v? with
+              | some v =>
+                let (st, attains) := match mv with
+                  | some m =>
+                    if (G.moves b).contains m then
+                      let (st, c?) := specV st G (d - 1) (G.play b m)
+                      (st, match c? with | some c => scoreClass (-c) == scoreClass v | none => false)
+                    else (st, false)
+                  | none => (st, (G.moves b).isEmpty)
+                (st, both "ok" (if scoreClass score == scoreClass v && attains then "ok"
+                  else s!"VALUE-MISMATCH minimax={v} reported={score} move-attains={attains}"))
+              | none => (st, both "ok" "?"))
+           | _, _, _ => (st, modelOnly "bad-op"))
+        | _ => (st, modelOnly "bad-op")
+      else (st, both "ok" verdict)
+    | none => (st, modelOnly "bad-op")
+  | ["s.afterstop"] => (st, both (toString st.search.nodesAfterStop) "0")
+  | ["s.qval", b] =>
+    match parseBoard b with
+    | some b =>
+      let G := chessGame st.mg (zkeysOf st.skeys)
+      let m := match quiesce G 100000 b Gen.NEGATIVE_INFINITY Gen.INFINITY {} with
+        | (some v, _) => toString v | (none, _) => "?"
+      let sp := match Spec.Q G 2000 b with
+        | some v => toString (if v ≥ Gen.INFINITY then Gen.INFINITY else if v ≤ Gen.NEGATIVE_INFINITY then
+            (if v = -Gen.CHECKMATE_SCORE then v else Gen.NEGATIVE_INFINITY) else v)
+        | none => "?"
+      (st, both m sp)
+    | none => (st, modelOnly "bad-op")
+  | ["s.ttclaim", b] =>   -- the cached record for this position, audited against minimax
+    match parseBoard b with
+    | some b =>
+      let G := chessGame st.mg (zkeysOf st.skeys)
+      let e := st.search.tt.retrieve (G.hash b)
+      let txt (e : Entry) := s!"{e.eval} {optMvText e.bestMove} {e.depth} {boundsName e.bounds}"
+      match e with
+      | none => (st, both "none" "?")
+      | some e =>
+        let (st, v?) := specV st G e.depth b
+        let sp := match v? with
+          | none => "?"
+          | some v =>
+            let vc := scoreClass v
+            let ec := scoreClass e.eval
+            let okv := match e.bounds with
+              | .exact => ec == vc
+              | .lower => ec ≤ vc
+              | .upper => vc ≤ ec
+            let okm := match e.bestMove with | some m => (G.moves b).contains m | none => true
+            if okv && okm then txt e else s!"FALSE-CLAIM minimax={v} entry={txt e}"
+        (st, both (txt e) sp)
+    | none => (st, modelOnly "bad-op")
+  | ["s.order", b, tt, ply] =>   -- order_moves / order_captures as permutations (model tie; spec: same multiset)
+    match parseBoard b, parseOptMv tt, ply.toNat? with
+    | some b, some tt, some ply =>
+      let G := chessGame st.mg (zkeysOf st.skeys)
+      let ms := G.moves b
+      let o := orderMoves G st.search b ms tt ply
+      let c := orderCaptures G b ms
+      (st, both s!"{orderedMoves o} / {orderedMoves c}" "?")
+    | _, _, _ => (st, modelOnly "bad-op")
+  -- ---------------------------------------------------------------- engine in-process (C04 C09)
+  | "eng.new" :: ks =>
+    match ks.mapM Driver.parseU64 with
+    | some l => if l.length = 837 then ({ st with eng := {}, engKeys := #[l.toArray], specHist := [] }, both "ok" "?") else (st, modelOnly "bad-op")
+    | none => (st, modelOnly "bad-op")
+  | "eng.pos" :: start :: rest =>
+    -- eng.pos <start board> <mv>* | <the position command line>
+    match parseBoard start with
+    | some sb =>
+      let mvs := (rest.takeWhile (· ≠ "|")).mapM parseMv
+      let cmd := (rest.dropWhile (· ≠ "|")).drop 1
+      match mvs with
+      | some mvs =>
+        let ctx : EngineCtx := { mg := st.mg, keys := fun i => zkeysOf (st.engKeys.getD i defaultKeys) }
+        let (_, e', oc) := Engine.handleCommand ctx st.eng (cmd.map String.toList)
+        let repx := e'.search.rep.foldl (· ^^^ ·) (0 : UInt64)
+        let m := s!"{outcomeText oc} {boardText e'.board} rep={e'.search.rep.length}:{repx.toNat}"
+        -- spec: play the moves by the rules from the start position
+        let (sp, hist) := Id.run do
+          let mut p := Spec.abs sb
+          let mut hist : List String := []
+          let mut ok := Spec.valid sb
+          for mv in mvs do
+            if ok && Spec.legal p mv then
+              hist := posText p 0 0 :: hist
+              p := Spec.play p mv
+            else ok := false
+          return (if ok then some p else none, hist)
+        match sp with
+        | some p =>
+          -- the repetition stack is not part of the position property: compare board only (counters from FEN kept by engine)
+          ({ st with eng := e', specHist := hist },
+           both m s!"running {posText p e'.board.halfmove e'.board.fullmove} rep={e'.search.rep.length}:{repx.toNat}")
+        | none => ({ st with eng := e', specHist := [] }, both m "?")
+      | none => (st, modelOnly "bad-op")
+    | none => (st, modelOnly "bad-op")
+  | ["eng.isdraw", b] =>
+    match parseBoard b with
+    | some b =>
+      let k := zkeysOf (st.engKeys.getD st.eng.newGames defaultKeys)
+      let m := st.eng.search.isRepetition (hash k b)
+      let cnt := (st.specHist.filter (· == posText (Spec.abs b) 0 0)).length
+      (st, both (toString m) (toString (decide (cnt ≥ 2))))
+    | none => (st, modelOnly "bad-op")
+  -- ---------------------------------------------------------------- black-box transcripts (C16 C03 C13)
+  | "uci.run" :: _ =>
+    -- uci.run <line>;;<line>;;...   (raw text after the op name; lines may contain any spacing)
+    let raw := (line.trimAscii.toString.drop 8).toString
+    let lines := (raw.splitOn ";;").map String.toList
+    let ctx : EngineCtx := { mg := st.mg, keys := fun i => zkeysOf (defaultKeysFrom (1000 + i.toUInt64)) }
+    let (out, oc) := Engine.uciLoop ctx lines {}
+    (st, both s!"{linesText out} => {outcomeText oc}" "?")
   -- ---------------------------------------------------------------- C12
   | "go.params" :: side :: rest =>
     let c := if side = "w" then Color.white else Color.black
